@@ -289,6 +289,28 @@ def check_numpaths(sched: List[int], objs: List[int], first: bool, use_abs: bool
     # the returned model must itself have been proven optimal for its k, and the solution must be its own
     return mod.code == OPT and opt.get_solution()["tag"] == (mod.k, OPT)
 
+def check_numpaths_twice(sched1: List[int], sched2: List[int]) -> bool:
+    """
+    pre: len(sched1) == 3 and len(sched2) == 3
+    pre: all(0 <= s <= 4 for s in sched1) and all(0 <= s <= 4 for s in sched2)
+    post: _
+    """
+    # the same object solved twice: what the second run reports must follow from the second run's own statuses
+    _S["sched"] = [1] + sched1
+    _S["calls"] = []
+    _OBJ["vals"] = [1] * 8
+    opt = NumPathsOptimization(model_type=_StubModel, stop_on_first_feasible=True, min_num_paths=1, max_num_paths=3)
+    opt.solve()
+    _S["sched"] = list(sched2)       # the lower bound is cached: no temporary model in the second run
+    _S["calls"] = []
+    ok = opt.solve()
+    if _solved(opt) != bool(ok):
+        return False
+    if not ok:
+        return _raises(opt.get_solution)
+    mod = opt.model
+    return mod.code == OPT and opt.get_solution()["tag"] == (mod.k, OPT) and (mod.k, OPT) in _S["calls"]
+
 check_numpaths([0, 0, 0, 0, 0], [1, 1, 1, 1, 1], True, False)
 '''
 
@@ -597,6 +619,8 @@ def _diag(task, call):
     if not call:
         return "counterexample"
     fn, pos, kw = call
+    if fn == "check_numpaths_twice":
+        return "second-solve-on-the-same-object:solved-state-differs-from-its-own-status-sequence"
     if fn == "check_search_twice":
         return "second-solve-on-the-same-object:decision-differs-from-its-own-status-sequence"
     sched = kw.get("sched", pos[0] if pos else None)
